@@ -217,6 +217,157 @@ def check_stream(case, ctx):
     return None
 
 
+# ---- two streamed inputs --------------------------------------------------------------------------------------
+BINARY = {
+    "annex": (lambda a, b: etl.annex(a, b), "both"),
+    "annex_cut": (lambda a, b: etl.annex(etl.cut(a, "k", "v"), etl.convert(b, "v", lambda v: (v,))), "both"),
+    "addcolumn_lazy": (lambda a, b: etl.addcolumn(a, "z", etl.values(b, "v")), "both"),
+    "addcolumn_lazy_index": (lambda a, b: etl.addcolumn(a, "z", etl.values(b, "v", "k"), index=0), "both"),
+    "cat": (lambda a, b: etl.cat(a, b), "first"),
+    "stack": (lambda a, b: etl.stack(a, b), "first"),
+    "hashleftjoin_probe": (lambda a, b: etl.hashleftjoin(a, etl.head(b, 3), key="k"), "first-bounded"),
+}
+
+
+def binary_cases(tier):
+    for name in sorted(BINARY):
+        for k in (0, 1, 2, 5):
+            for n1 in (30, 100):
+                yield {"op": name, "k": k, "n1": n1}
+
+
+def check_binary(case, ctx):
+    fn, mode = BINARY[case["op"]]
+    k, n1 = case["k"], case["n1"]
+    hdr = list(catalog.H)
+    block = [[1, "a", 2, "x"], [None, "b", None, "y"], [3, "c", 1, "xz"]]
+    res = []
+    for n in (n1, 100 * n1):
+        a, b = Cyclic(hdr, block, n), Cyclic(hdr, block, n)
+        try:
+            view = fn(a, b)
+            at_construction = (a.data_pulls, b.data_pulls)
+            out = [tuple(r) for r in itertools.islice(view, k + 1)]
+        except Exception as ex:
+            return exc_fail("binary/" + case["op"], ex)
+        res.append((out, a.data_pulls, b.data_pulls, at_construction))
+    ctx.label("op:" + case["op"])
+    ctx.nontrivial(k >= 1)
+    (o1, a1, b1, c1), (o2, a2, b2, c2) = res
+    if any(c1) or any(c2):
+        return Fail("binary/%s/construct-pulls" % case["op"], "construction pulled %r / %r data rows" % (c1, c2))
+    if o1 != o2:
+        return Fail("binary/%s/prefix-differs" % case["op"], "%r vs %r" % (o1, o2))
+    if (a1, b1) != (a2, b2):
+        return Fail("binary/%s/pulls-depend-on-length" % case["op"], "%d rows pulled (%d, %d) from %d-row sources but (%d, %d) from %d-row sources" % (k + 1, a1, b1, n1, a2, b2, 100 * n1))
+    bound = k + 3
+    if a2 > bound or (mode == "both" and b2 > bound) or (mode == "first" and b2 > 0) or (mode == "first-bounded" and b2 > 5):
+        return Fail("binary/%s/pulls-exceed-bound" % case["op"], "%d rows pulled (%d, %d) data rows from the two sources (bound %d, mode %s)" % (k + 1, a2, b2, bound, mode))
+    return None
+
+
+# ---- a DB-API cursor that knows its description only after the first fetch (server-side cursors) ---------------------
+class _LazyCursor(object):
+    def __init__(self, conn):
+        self.conn = conn
+        self.description = None
+        self._i = 0
+
+    def execute(self, query, *a, **kw):
+        self._i = 0
+        self.description = None
+        return self
+
+    def _fetch(self):
+        if self._i >= self.conn.nrows:
+            return None
+        self.conn.fetched += 1
+        self.description = [("a", None), ("b", None)]
+        r = (self._i, "r%d" % self._i)
+        self._i += 1
+        return r
+
+    def fetchone(self):
+        self.description = [("a", None), ("b", None)]
+        return self._fetch()
+
+    def fetchmany(self, size=10):
+        out = []
+        for _ in range(size):
+            r = self._fetch()
+            if r is None:
+                break
+            out.append(r)
+        self.description = [("a", None), ("b", None)]
+        return out
+
+    def fetchall(self):
+        return self.fetchmany(self.conn.nrows + 1)
+
+    def executemany(self, *a):
+        raise NotImplementedError
+
+    def __iter__(self):
+        return self
+
+    def __next__(self):
+        r = self._fetch()
+        if r is None:
+            self.description = [("a", None), ("b", None)]
+            raise StopIteration
+        return r
+
+    def close(self):
+        pass
+
+
+class _LazyConn(object):
+    def __init__(self, nrows):
+        self.nrows = nrows
+        self.fetched = 0
+
+    def cursor(self):
+        return _LazyCursor(self)
+
+    def commit(self):
+        pass
+
+
+def db_cases(tier):
+    for handle in ("connection", "cursor", "cursorfn"):
+        for k in (0, 1, 3, 5):
+            for stage in ("none", "convert"):
+                yield {"handle": handle, "k": k, "stage": stage}
+
+
+def check_db(case, ctx):
+    res = []
+    for n in (50, 5000):
+        conn = _LazyConn(n)
+        dbo = conn if case["handle"] == "connection" else conn.cursor() if case["handle"] == "cursor" else (lambda: conn.cursor())
+        try:
+            view = etl.fromdb(dbo, "select * from t")
+            c0 = conn.fetched
+            if case["stage"] == "convert":
+                view = etl.convert(view, "a", lambda v: (v,))
+            out = [tuple(r) for r in itertools.islice(view, case["k"] + 1)]
+        except Exception as ex:
+            return exc_fail("fromdb/" + case["handle"], ex)
+        res.append((out, conn.fetched, c0))
+    ctx.label("handle:" + case["handle"])
+    ctx.nontrivial(case["k"] >= 1)
+    (o1, f1, c1), (o2, f2, c2) = res
+    if c1 or c2:
+        return Fail("fromdb/%s/construct-fetches" % case["handle"], "construction fetched %d / %d rows" % (c1, c2))
+    if o1 != o2 or (o1 and o1[0] != ("a", "b")):
+        return Fail("fromdb/%s/prefix-differs" % case["handle"], "%r vs %r" % (o1, o2))
+    if f1 != f2:
+        return Fail("fromdb/%s/fetches-depend-on-length" % case["handle"], "%d rows fetched %d of 50 but %d of 5000 result rows" % (case["k"] + 1, f1, f2))
+    if f2 > case["k"] + 3:
+        return Fail("fromdb/%s/fetches-exceed-bound" % case["handle"], "%d rows fetched %d result rows" % (case["k"] + 1, f2))
+    return None
+
+
 # ---- look / see / repr ---------------------------------------------------------------------------------
 def vis_cases(tier):
     for fn in ("look", "see", "repr", "str", "repr_html", "lookstr", "values_repr"):
@@ -340,6 +491,8 @@ def check_files(case, ctx):
 SUBS = [
     Sub("construct", check_construct, strategy=construct_case, quick=6000, thorough=60000),
     Sub("stream", check_stream, strategy=stream_case, quick=4000, thorough=80000),
+    Sub("binary", check_binary, enumerate=binary_cases),
+    Sub("fromdb", check_db, enumerate=db_cases),
     Sub("vis", check_vis, enumerate=vis_cases),
     Sub("files", check_files, strategy=file_case, quick=64, thorough=640),
 ]
